@@ -578,9 +578,14 @@ def run_shard(job: dict[str, Any]) -> dict[str, Any]:
             )
 
     http_budget = job["http_streams"]
+    directed = directed_cases(w)
     for tno in range(job["types"]):
-        style = rng.choice(["flat", "flat", "general", "general", "general"])
-        idx = w.gen_type(rng.choice([0, 1, 2, 3]) if style != "flat" else 0, flat=(style == "flat"))
+        preset: list[Any] | None = None
+        if tno < len(directed):
+            idx, preset = directed[tno]
+        else:
+            style = rng.choice(["flat", "flat", "general", "general", "general"])
+            idx = w.gen_type(rng.choice([0, 1, 2, 3]) if style != "flat" else 0, flat=(style == "flat"))
         ti = w.types[idx]
         cls = ti["cls"]
         unpromised = w.type_promised(idx)
@@ -601,8 +606,8 @@ def run_shard(job: dict[str, Any]) -> dict[str, Any]:
             continue
         all_ok = True
         insts = []
-        for _ in range(job["instances"]):
-            x = w.gen_inst(idx)
+        for ino in range(job["instances"]):
+            x = preset[ino % len(preset)] if preset else w.gen_inst(idx)
             insts.append(x)
             # ---- O1 Arrow round trip
             try:
@@ -693,6 +698,36 @@ def run_shard(job: dict[str, Any]) -> dict[str, Any]:
     res = chk.to_result()
     res["msgpack_impl"] = msgpack_impl
     return res
+
+
+def directed_cases(w: World) -> list[tuple[int, list[Any]]]:
+    """A few fixed corner shapes every shard runs first (random generation reaches them only rarely).
+
+    D1: list / optional of a nested dataclass whose own optional nested dataclass (holding an enum) is None in
+        *every* element - the struct slot is null and its dictionary-encoded child has no values at all.
+    """
+    out: list[tuple[int, list[Any]]] = []
+    inner = w.gen_type(0, fields=[("e", ("enum", "Color"), False, "none", None), ("s", ("str",), False, "none", None)])
+    mid = w.gen_type(1, fields=[("inner", ("opt", ("gdc", inner)), False, "none", None), ("k", ("int",), False, "none", None)])
+    outer = w.gen_type(2, fields=[("mids", ("list", ("gdc", mid)), False, "none", None), ("one", ("opt", ("gdc", mid)), False, "none", None)])
+    icls, mcls, ocls = (w.types[i]["cls"] for i in (inner, mid, outer))
+    red = w.enums["Color"].RED
+    out.append(
+        (
+            outer,
+            [
+                ocls(mids=[mcls(inner=None, k=1)], one=None),
+                ocls(mids=[mcls(inner=None, k=1), mcls(inner=None, k=2)], one=mcls(inner=None, k=3)),
+                ocls(mids=[mcls(inner=icls(e=red, s="x"), k=1), mcls(inner=None, k=2)], one=mcls(inner=icls(e=red, s=""), k=0)),
+                ocls(mids=[], one=mcls(inner=None, k=0)),
+            ],
+        )
+    )
+    # D2: the same null slot reached through map values
+    outer2 = w.gen_type(2, fields=[("bykey", ("dict", ("str",), ("gdc", mid)), False, "none", None)])
+    o2 = w.types[outer2]["cls"]
+    out.append((outer2, [o2(bykey={"a": mcls(inner=None, k=1)}), o2(bykey={}), o2(bykey={"a": mcls(inner=None, k=1), "b": mcls(inner=None, k=2)})]))
+    return out
 
 
 def describe(w: World, idx: int) -> dict[str, Any]:
@@ -798,7 +833,7 @@ def main(tier: str, seed: int) -> int:
     ]
     nsh = shard.ncpu()
     if tier == "quick":
-        per_leg, types, instances, http_streams = max(nsh // 2, 3), 60, 6, 12
+        per_leg, types, instances, http_streams = max(nsh // 2, 3), 120, 6, 20
     else:
         per_leg, types, instances, http_streams = max(nsh, 8), 1300, 8, 120
     jobs = []
@@ -822,3 +857,24 @@ def main(tier: str, seed: int) -> int:
     chk.extra["msgpack_impl"] = sorted(impls)
     chk.exhaustive["generated_types_and_instances"] = False
     return chk.finish()
+
+
+def replay(path: str) -> int:
+    """Re-execute the recorded (tier, seed) and report whether the recorded mechanism key fires again.
+
+    Generation is a pure function of the seed, so the witness case is regenerated exactly; 1 = fired again,
+    2 = diverged (reported as inconclusive / flaky), never 0.
+    """
+    import json
+    import os
+
+    from lib import evidence
+
+    with open(path) as fh:
+        rec = json.load(fh)
+    main(rec["tier"], int(rec["seed"]))
+    with open(os.path.join(evidence.EVIDENCE_DIR, f"{PID}.json")) as fh:
+        cov = json.load(fh)["coverage"]
+    fired = rec["key"] in cov.get("unlisted_violation_keys", []) or rec["key"] in cov.get("known_findings_seen", [])
+    print(f"REPLAY property={PID} key={rec['key']} {'fired again' if fired else 'DIVERGED (inconclusive)'}")
+    return 1 if fired else 2
